@@ -199,7 +199,7 @@ ChanK(s) ==
     \* ... x object cache limit (-1: default; 5 bytes: smaller than one source block, the object must end in error)
     [] Family = "writer"  -> {"store", "already", "abort"} \X {0, 1} \X {0, 1, 2, 3} \X (0..NP(s)) \X {"fwd", "objfirst"} \X {-1, 5}
     [] Family = "clean"   -> BOOLEAN \X BOOLEAN
-    [] Family = "c04"     -> (0..NP(s)) \X ({<<"fuzzhdr", i>> : i \in 1..NP(s)} \cup {<<"truncall", i>> : i \in 1..NP(s)} \cup {<<"xmlfdt", v>> : v \in 0..29}
+    [] Family = "c04"     -> (0..NP(s)) \X ({<<"fuzzhdr", i>> : i \in 1..NP(s)} \cup {<<"truncall", i>> : i \in 1..NP(s)} \cup {<<"cpswap", i>> : i \in 1..NP(s)} \cup {<<"xmlfdt", v>> : v \in 0..29}
                                            \cup {<<"mutseq", x>> : x \in 1..6} \cup {<<"garbage", 1>>})
     \* which packets of the FIRST emission of the first instance arrive (only its first packet / all / none) x later
     \* instances lost x receiver clock skew
